@@ -318,14 +318,13 @@ class IntValue(PrimitiveValue):
         if new_type == DataType.BOOL:
             return BoolValue(bool(self.data), self.span)
         elif new_type == DataType.BYTE:
-            # TODO: we should probably do self.data & 0xFF
-            #  Should have result that 4 / (258 is byte) produces 2, as
-            #  it would if evaluated at runtime.
-            #  For that matter I should also track word size in env and
+            # Keep only the low byte, so that 4 / (258 is byte) produces
+            # 2, as it would if evaluated at runtime.
+            # TODO: I should also track word size in env and
             #  use for (signed) wraparound in arithmetic evaluation.
             #  Also when we create IntValues to begin with...  and maybe
             #  more places I forget.
-            return ByteValue(self.data, self.span, self.shrinkable, self.is_char)
+            return ByteValue(self.data & 0xFF, self.span, self.shrinkable, self.is_char)
         elif new_type == DataType.INT:
             # Whenever a ByteValue is implicitly coerced to an IntValue,
             # it should be shrinkable back to byte.
